@@ -212,6 +212,28 @@ func (p *Prog) Pos(pos token.Pos) string {
 
 // Func finds a package-level function or a method: Func("url", "", "Parse"), Func("url", "parser", "BasicParser").
 func (p *Prog) Func(pkg, recv, name string) *ssa.Function {
+	if f := p.funcExact(pkg, recv, name); f != nil {
+		return f
+	}
+	// an unexported function that changed between method and plain function (or moved to another receiver) is still
+	// the function of that name, as long as the package has only one
+	if name == "" || (name[0] >= 'A' && name[0] <= 'Z') {
+		return nil
+	}
+	var found *ssa.Function
+	for _, f := range p.ModFns {
+		if f.Parent() != nil || f.Name() != name || f.Pkg == nil || f.Pkg != p.SSAPkg[pkg] {
+			continue
+		}
+		if found != nil {
+			return nil
+		}
+		found = f
+	}
+	return found
+}
+
+func (p *Prog) funcExact(pkg, recv, name string) *ssa.Function {
 	sp := p.SSAPkg[pkg]
 	if sp == nil {
 		return nil
